@@ -78,6 +78,7 @@ package_info extpkg =
   let NewCounter: ()->Counter
   let Bump: Counter->int->int
   let Mk<T>: int->int->[]T
+  let ExtAdd: int->string
 
 `)
 	cl.WriteString("package main\n\nimport (\n\t\"fmt\"\n\t\"genprog/extpkg\"\n\n\t\"github.com/karino2/folang/pkg/frt\"\n)\n\nvar _ = frt.Println\nvar _ = extpkg.Twice\n\nfunc main() {\n")
@@ -312,6 +313,9 @@ let callsTriplePipe () =
 let callsPkg () =
   extpkg.Twice 21
 
+let callsPkgSame () =
+  extpkg.ExtAdd 6
+
 let callsPkgPartial () =
   let j = extpkg.Join3 "a" "b"
   j "c"
@@ -403,7 +407,7 @@ let xTwoPiped () =
 	exp.WriteString(fmt.Sprintf("frt.Tuple2[%s,%s] frt.Tuple2[%s,%s]\n", strings.ReplaceAll(t7.goT, " ", ""), strings.ReplaceAll(t1.goT, " ", ""), strings.ReplaceAll(t2.goT, " ", ""), strings.ReplaceAll(t7.goT, " ", "")))
 	cl.WriteString("\tfmt.Println(callsFull(), callsPartial(), callsPiped(), callsExplicit(), callsInferred(), callsUnit())\n\tcallsProc()\n")
 	cl.WriteString("\tfmt.Println(callsTriple0(), callsTriple1(), callsTriple2(), callsTriplePipe())\n")
-	cl.WriteString("\tfmt.Println(callsPkg(), callsPkgPartial(), callsPkgPipe(), counter(), callsComputed())\n")
+	cl.WriteString("\tfmt.Println(callsPkg(), callsPkgPartial(), callsPkgPipe(), counter(), callsComputed(), callsPkgSame())\n")
 	// tuples are frt.Tuple2 / frt.Tuple3 values with fields E0, E1, E2
 	cl.WriteString("\tvar t3 frt.Tuple3[int, string, bool] = trip3()\n\tvar t2 frt.Tuple2[int, string] = pair2(9)\n\tfmt.Println(t3.E0, t3.E1, t3.E2, t2.E0, t2.E1)\n")
 	// a PARTIAL explicit type-argument list: the leading type parameters are given, the rest is inferred by Go
@@ -413,7 +417,7 @@ let xTwoPiped () =
 	cl.WriteString("\tfnFull()(\"1\")\n\tfnPartialPiped()(\"2\")\n\tfnBarePiped()(\"3\")\n\tfmt.Println(fnAdderPiped()(10), fnUse())\n\tfnNestPiped()(1)(\"n\")\n}\n")
 	exp.WriteString("ExtAdd(1,2) ExtAdd(10,5) ExtAdd(4,3) ExtShow(7) ExtShow(s) 99\nExtProc(p)\n")
 	exp.WriteString("1/w/true 1/x/true 2/y/false 3/z/true\n")
-	exp.WriteString("42 a+b+c p+q+r 105 ExtAdd(7,5)/ExtAdd(7,8)\n")
+	exp.WriteString("42 a+b+c p+q+r 105 ExtAdd(7,5)/ExtAdd(7,8) pkg.ExtAdd(6)\n")
 	exp.WriteString("7 t true 9 p\n[]string/2 []bool/3 []int/1\n")
 	exp.WriteString("log A b 1\nlog B : 2\nprint C 3\nprint d e\n13 11\nnest 4 1 n\n")
 	return foB.String(), cl.String(), exp.String(), unions, recs
@@ -442,6 +446,12 @@ func ExtNest(a int) func(int) func(string) { return func(b int) func(string) { r
 `
 
 const c03Pkg = `package extpkg
+
+import "fmt"
+
+// the same short name as the unprefixed ExtAdd of package main, another arity: a call is resolved by
+// the name as written (qualified or not), whatever other package_info blocks declare
+func ExtAdd(a int) string              { return fmt.Sprintf("pkg.ExtAdd(%d)", a) }
 
 type Counter struct{ n *int }
 
